@@ -45,6 +45,8 @@ pub enum Family {
     GaussDecayOff,
     /// e^{-a2 x} cos(a3 x), e^{-a1 x} cos(a2 x)
     OLeary,
+    /// n decays, no offset (P = M = n), for the schedule exploration with 4 and 5 Jacobian columns
+    ExpN(usize),
     /// hand-written only
     PolyMat(Arc<PolySpec>),
     /// M x P incidence (row j = parameters used by function j)
@@ -59,6 +61,7 @@ impl Family {
             Family::Exp3 => "Exp3".into(),
             Family::GaussDecayOff => "GaussDecayOff".into(),
             Family::OLeary => "OLeary".into(),
+            Family::ExpN(n) => format!("ExpN{}", n),
             Family::PolyMat(s) => format!("PolyMat{}x{}x{}", s.n, s.m, s.p),
             Family::GenProd { m, p, inc } => {
                 let mut s = format!("GenProd{}x{}:", m, p);
@@ -81,6 +84,7 @@ impl Family {
             Family::Exp3 => 3,
             Family::GaussDecayOff => 3,
             Family::OLeary => 2,
+            Family::ExpN(n) => *n,
             Family::PolyMat(s) => s.m,
             Family::GenProd { m, .. } => *m,
         }
@@ -92,6 +96,7 @@ impl Family {
             Family::Exp3 => 3,
             Family::GaussDecayOff => 3,
             Family::OLeary => 3,
+            Family::ExpN(n) => *n,
             Family::PolyMat(s) => s.p,
             Family::GenProd { p, .. } => *p,
         }
@@ -113,7 +118,7 @@ impl Family {
                     vec![]
                 }
             }
-            Family::Exp3 => vec![j],
+            Family::Exp3 | Family::ExpN(_) => vec![j],
             Family::GaussDecayOff => match j {
                 0 => vec![0, 1],
                 1 => vec![2],
@@ -173,7 +178,7 @@ pub fn phi<T: Sc>(fam: &Family, j: usize, i: usize, x: T, a: &[T]) -> T {
                 T::f(1.0)
             }
         }
-        Family::Exp3 => Float::exp(-x / a[j]),
+        Family::Exp3 | Family::ExpN(_) => Float::exp(-x / a[j]),
         Family::GaussDecayOff => match j {
             0 => {
                 let d = x - a[0];
@@ -232,7 +237,7 @@ pub fn dphi<T: Sc>(fam: &Family, j: usize, k: usize, i: usize, x: T, a: &[T]) ->
                 zero
             }
         }
-        Family::Exp3 => {
+        Family::Exp3 | Family::ExpN(_) => {
             if k == j {
                 x / (a[j] * a[j]) * Float::exp(-x / a[j])
             } else {
